@@ -258,6 +258,9 @@ type delivery struct {
 	module.Delivery
 	// Recipient addresses this delivery object is used for, original values (not modified by RewriteRcpt).
 	recipients []string
+	// Set by BodyNonAtomic if the message was refused for all recipients of
+	// this delivery before or by its Body, such delivery is aborted on Commit.
+	bodyFailed bool
 }
 
 type msgpipelineDelivery struct {
@@ -275,6 +278,9 @@ type msgpipelineDelivery struct {
 	deliveries  map[module.DeliveryTarget]*delivery
 	msgMeta     *module.MsgMetadata
 	checkRunner *checkRunner
+
+	// Set if BodyNonAtomic was used.
+	nonAtomic bool
 }
 
 func (dd *msgpipelineDelivery) AddRcpt(ctx context.Context, to string, opts smtp.RcptOptions) error {
@@ -449,8 +455,11 @@ func (sc statusCollector) SetStatus(rcptTo string, err error) {
 }
 
 func (dd *msgpipelineDelivery) BodyNonAtomic(ctx context.Context, c module.StatusCollector, header textproto.Header, body buffer.Buffer) {
+	dd.nonAtomic = true
+
 	setStatusAll := func(err error) {
 		for _, delivery := range dd.deliveries {
+			delivery.bodyFailed = true
 			for _, rcpt := range delivery.recipients {
 				c.SetStatus(rcpt, err)
 			}
@@ -507,6 +516,7 @@ func (dd *msgpipelineDelivery) BodyNonAtomic(ctx context.Context, c module.Statu
 		}
 
 		if err := delivery.Body(ctx, header, body); err != nil {
+			delivery.bodyFailed = true
 			for _, rcpt := range delivery.recipients {
 				c.SetStatus(rcpt, err)
 			}
@@ -519,15 +529,20 @@ func (dd msgpipelineDelivery) Commit(ctx context.Context) error {
 
 	var commitErr error
 	for _, delivery := range dd.deliveries {
-		if commitErr != nil {
+		if (commitErr != nil && !dd.nonAtomic) || delivery.bodyFailed {
 			// No point in Committing remaining deliveries, everything is broken already.
-			// They still have to be closed.
+			// They still have to be closed. Same for deliveries that did not
+			// accept the message body (BodyNonAtomic).
 			if err := delivery.Abort(ctx); err != nil {
 				dd.log.Debugf("delivery.Abort failure, Delivery object = %T: %v", delivery, err)
 			}
 			continue
 		}
-		commitErr = delivery.Commit(ctx)
+		// After BodyNonAtomic statuses of recipients are reported already,
+		// each delivery is on its own.
+		if err := delivery.Commit(ctx); err != nil && commitErr == nil {
+			commitErr = err
+		}
 	}
 	return commitErr
 }
